@@ -692,7 +692,13 @@ def r19d(R):
         ok = bool(sp) and "print(' ', end='')" in sp[0].text()
         setp = [n for n in ocfg.nodes if n.kind == 'stmt'
                 and norm(n.ast) == 'self._line_pending = True']
-        pr = [n for n in ocfg.nodes if "print(output, end='')" in n.text()]
+        # what is written is R19.j's business; here: some text is written
+        # without a line break after the separator decision
+        pr = [n for n in ocfg.nodes for c in n.calls()
+              if norm(c.func) == 'print' and c.args
+              and not isinstance(c.args[0], ast.Constant)
+              and any(k.arg == 'end' and isinstance(k.value, ast.Constant)
+                      and k.value.value == '' for k in c.keywords)]
         ok = ok and bool(setp and pr)
     nl = so.methods['newline']
     ok = ok and any(norm(n) == 'self._line_pending = False' for n in walk_own(nl.node)) \
